@@ -6,20 +6,20 @@ desc={
 'C02':("exploration","seeded simulation of honest snow<->snow sessions (static keys partly from snow's own generate_keypair through the RNG seam, fresh ephemerals, lagging and interleaved transport deliveries, stateful/stateless mix, caller buffers from exact fit to 70000, payload sizes to the 65535 boundary, local failing calls and retries): completion after exactly the pattern's message count, payload equality, equal hashes","5.C02"),
 'C03':("exploration","seeded fault injection on handshake deliveries (bit flips / byte sets / field overwrites per field, truncation at field boundaries, extension, multi-edits, substitution from a parallel session with same/different statics, replay, byzantine peer with an off-curve static key), then honest continuation; oracle: model predicts accept/reject of every read and 'never both finished without error'","5.C03, 12.3"),
 'C04':("exploration","seeded fault injection on transport deliveries (alteration, reflection, cross-session, cross-direction, wrong nonce, extended maximum-size messages, authentic oversize messages from a non-conforming key holder) against a transport model that decrypts with its own AEAD; accept <=> model accepts, payload equal","5.C04"),
-'C05':("exploration","seeded delivery schedules (reorder, loss, duplication, delay, garbage, short buffers, explicit receive nonces incl. resynchronisation backwards) over stateful sessions with a receive-counter model and a fault-free epilogue (bounded liveness); plus the complete set of delivery sequences of length 4 over {m0,m1,m2,garbage,set_receiving_nonce} x ciphers x backends x directions","5.C05, 12.1"),
-'C06':("exploration","recording pass-through Cipher injected through the resolver seam builds a (key, nonce) ledger over failing/retried calls, conversion, rekeys and explicit nonces (reserved nonce 2^64-1 always checked); ephemeral freshness checked against the RNG seam's per-call draw log, incl. RNG faults (invalid P-256 scalar); stock random sources exercised directly (supplementary)","5.C06, 12.1"),
-'C07':("exploration","seeded failing calls (every cause, 1-4 per handshake, both sides, retransmission until success) with observables compared before/after (turn, finished, hash, nonces, remote static), shadow-model equality of all later bytes, and a control run (same ops with failed calls removed, per-call deterministic RNG) whose wire trace must be identical","5.C07, 12.1"),
+'C05':("exploration","seeded delivery schedules (reorder, loss, duplication, delay, garbage, short buffers, explicit receive nonces incl. resynchronisation backwards) over stateful sessions with a receive-counter model and a fault-free epilogue (bounded liveness); plus two complete grids: all delivery sequences of length 4 over {m0,m1,m2,garbage,set_receiving_nonce} x ciphers x backends x directions, and all sequences of depth 4 over {write, deliver, synchronised rekey, manual rekey, resync back, jump to 2^64-1} with both counters placed at 2^64-3","5.C05, 12.1"),
+'C06':("exploration","recording pass-through Cipher injected through the resolver seam builds a (key, nonce) ledger over failing/retried calls, conversion, rekeys and explicit nonces (reserved nonce 2^64-1 always checked); ephemeral freshness checked against the RNG seam's per-call draw log, incl. RNG faults (invalid P-256 scalar); the complete one-failure grid (64 pattern/psk variants x DH x message index x 15 failure causes, retry, run to completion); stock random sources exercised directly (supplementary)","5.C06, 12.1"),
+'C07':("exploration","seeded failing calls (every cause, 1-4 per handshake, both sides, retransmission until success) with observables compared before/after (turn, finished, hash, nonces, remote static), shadow-model equality of all later bytes, a control run (same ops with failed calls removed, per-call deterministic RNG) whose wire trace must be identical, and the complete one-failure grid (64 pattern/psk variants x DH x message index x 15 failure causes)","5.C07, 12.1"),
 'C08':("exploration","configuration faults: peers booted with one differing context item (name component incl. DH function, psk index and modifier order, prologue bit/length incl. tails beyond 65535 bytes, PSK bit, over-long PSK through set_psk, pre-shared static key incl. masked bit 255); never both finished, no transport message accepted, plus cross-session transport substitution","5.C08"),
-'C09':("exploration","nonce model over interleaved successful/failing reads/writes with counters placed at 2^64-3..2^64-1 (hook for the sending side), stateless boundary nonces, manual/automatic rekeys at the boundary, recording cipher proving 2^64-1 is only used by rekey","5.C09"),
-'C10':("exploration","chaos driver + panic monitor (catch_unwind at every call) over all session states with adversarial buffers (incl. 1-15 bytes of slack), messages, keys of length 0..200, invalid P-256 scalars, unbuildable names, PSK arguments; watchdog for non-termination (60 s per run); name strings by plain seeded generation","5.C10"),
+'C09':("exploration","nonce model over interleaved successful/failing reads/writes with counters placed at 2^64-3..2^64-1 (hook for the sending side), stateless boundary nonces, manual/automatic rekeys at the boundary (complete depth-4 grid at 2^64-3), recording cipher proving 2^64-1 is only used by rekey","5.C09"),
+'C10':("exploration","chaos driver + panic monitor (catch_unwind at every call) over all session states with adversarial buffers (incl. 1-15 bytes of slack), messages, keys of length 0..200, invalid P-256 scalars, unbuildable names, PSK arguments; the complete boundary sweep (every buffer / message length within +-2 of every field boundary for 64 pattern/psk variants x DH x message index, and around the tag in both transport modes); watchdog for non-termination (60 s per run); name strings by plain seeded generation","5.C10"),
 'C11':("exploration","random call sequences (out-of-turn, after-finish, early conversion, one-way misuse) against a 10-line state-machine model, pinned state-error variants for single-cause calls, indicators compared after every call, later divergence after a misuse attributed; plus the complete set of call sequences of depth 4 (quick) / 6 (thorough) over six calls for six patterns","5.C11, 12.1"),
 'C12':("fault_enumeration","boot half enumerated completely (38 patterns x role x key subsets x psk modifier 0..9 / multi / fallback / unbuildable spellings x denied primitive) against requirements derived from the pattern text; run-time half sampled (withheld PSKs must fail at the message that needs them, then succeed after set_psk; shuffled modifier order)","5.C12"),
 'C14':("exploration","field-map length prediction from the model for every write/read, buffers placed at every field boundary; plus the complete grid pattern x DH x message index x payload {max-1..max+17} x 7 buffer sizes, repeated in both transport modes with extended/truncated/forged oversize copies","5.C14, 12.1"),
-'C15':("exploration","random sequences of writes, deliveries and unilateral/synchronised/manual rekeys (incl. repeated, at nonce boundaries, both directions in one call); model applies the spec's REKEY to its own keys: byte-for-byte ciphertext equality and accept <=> keys equal","5.C15"),
+'C15':("exploration","random sequences of writes, deliveries and unilateral/synchronised/manual rekeys (incl. repeated, at nonce boundaries, both directions in one call); model applies the spec's REKEY to its own keys: byte-for-byte ciphertext equality and accept <=> keys equal; plus the complete depth-4 grid over {write, deliver, rekey outgoing, rekey incoming, manual key on either side}","5.C15"),
 'C16':("exploration","logical clients interleaved on shared stateless sessions (any order, repetition, boundary nonces, tight buffers, rejected reads in between) against model AEAD; real threads under shuttle (random + PCT schedulers); thorough adds Miri (preemptive seeded scheduling, data-race detection); supplementary OS-thread stress after key changes (uncontrolled scheduler)","5.C16, 12.1"),
 'C17':("exploration","monitor: after every call and after both conversions get_remote_static() must equal the model's knowledge of the peer key (32- and 65-byte keys, pinned superfluous keys, byzantine keys); after a failed read it must equal its value before the call","5.C17, 12.1"),
-'C19':("exploration","after every read rejected for authentication the pre-filled output buffer is searched for the genuine payload plaintext (aligned windows tolerant to a few altered bytes) and for the sender's static key; cipher x backend x buffer size (exact, +1..+15, message size, larger) x payload size up to 65519","5.C19"),
-'C20':("exploration","twin universes: the same seeded run re-executed under 5 backend assignments must give identical wire bytes and Ok/Err results; fallback table enumerated completely with tagged stub resolvers (availability per kind and per choice, query order)","5.C20"),
+'C19':("exploration","after every read rejected for authentication the pre-filled output buffer is searched for the genuine payload plaintext (aligned windows tolerant to a few altered bytes) and for the sender's static key; seeded runs plus the complete grid cipher x backend x read path x alteration x payload buffer (exact, +1, +15, message size, ample) x payload length 16..40000","5.C19"),
+'C20':("exploration","twin universes: the same seeded run re-executed under 5 backend assignments must give identical wire bytes and Ok/Err results; fallback table enumerated completely with tagged stub resolvers (availability per kind and per choice, query order); rekey sequences (complete depth-4 grid) in twin universes","5.C20"),
 }
 tech={
 'C01':"deterministic simulation vs executable reference model (shadow lockstep)",
